@@ -6,7 +6,8 @@ Problems are tagged with the clause they violate so each check reports only its 
   wire   - C03: well-formed minimal message, version, credentials, PDU type, ids, OIDs
   usm    - C03/C13: engine id / boots / time / flags carried by the request
   mac    - C09: auth flag and HMAC-96
-  priv   - C11: msgData decrypts to exactly the scoped PDU + < 1 block padding
+  priv   - C11/C12: msgData decrypts (under the independently derived key) to exactly the scoped PDU
+  pad    - C11: less than one block of padding follows it
   salt   - C14: priv flag, 8-octet salt, nothing confidential in clear
 """
 
@@ -50,7 +51,7 @@ class SessionModel:
         self.time = time
 
 
-def check_request(cfg, call, data, model=None, clauses=("wire", "usm", "mac", "priv", "salt")):
+def check_request(cfg, call, data, model=None, clauses=("wire", "usm", "mac", "priv", "pad", "salt")):
     """Returns (Request or None, problems) where problems is a list of (clause, text)."""
     problems = []
 
@@ -132,7 +133,7 @@ def check_request(cfg, call, data, model=None, clauses=("wire", "usm", "mac", "p
                     r.scoped_raw = plain[:n]
                     r.padding = plain[n:]
                     if len(r.padding) >= block:
-                        bad("priv", "%d octets follow the scoped PDU inside the ciphertext (block is %d)" % (len(r.padding), block))
+                        bad("pad", "%d octets follow the scoped PDU inside the ciphertext (block is %d)" % (len(r.padding), block))
                     _check_scoped(r, cfg, call, model, bad, data)
                     # confidentiality (C14): nothing of the scoped PDU outside the ciphertext
                     clear = _outside_ciphertext(data, r)
